@@ -117,7 +117,7 @@ class RecLogger(Logger):
 
 class PeekLogger(RecLogger):
     """a logger that looks around whenever it is handed a record: read-only queries (current and past values of every
-    market, its book, and -- in configurations without fundamental shocks -- the fundamental generator some 150 steps
+    market, its book, and -- in configurations without fundamental shocks -- the fundamental generator 150 to 350 steps
     ahead, which the generator's own API permits) must not change what happens"""
     lookahead = True
 
@@ -136,9 +136,12 @@ class PeekLogger(RecLogger):
                 f(*a)  # a query refused at this moment (e.g. in the middle of a clock advance) is not a change
             except Exception:  # noqa
                 pass
+        self.npeek = getattr(self, "npeek", -1) + 1
         for m in sim.markets:
             t = m.get_time()
             if t < 0:
+                if self.lookahead and not hasattr(m, "get_index"):
+                    q(sim.fundamentals.get_fundamental_price, m.market_id, 250)
                 continue
             for g in ("get_market_price", "get_mid_price", "get_best_buy_price", "get_best_sell_price", "get_fundamental_price",
                       "get_last_executed_price", "get_executed_volume", "get_vwap", "get_buy_order_book", "get_sell_order_book"):
@@ -150,7 +153,8 @@ class PeekLogger(RecLogger):
                 q(m.get_fundamental_index)
                 q(m.get_index, 0)
             elif self.lookahead:
-                q(sim.fundamentals.get_fundamental_price, m.market_id, t + 150)
+                # far enough ahead to span more than one generation chunk (100 steps) beyond what exists
+                q(sim.fundamentals.get_fundamental_price, m.market_id, t + 150 + 100 * (self.npeek % 3))
         for a in sim.agents:
             q(a.get_cash_amount)
             for mid in list(a.asset_volumes):
